@@ -224,6 +224,11 @@ func c07Retry(c *Ctx) {
 		}
 		var mu sync.Mutex
 		invoked := 0
+		overrideMethod := ""
+		if i%4 == 1 {
+			overrideMethod = pick(r, []string{"GET", "POST", "PUT", "DELETE", "PATCH"})
+			c.Count("cases_with_method_rewriting_handler", 1)
+		}
 		h := http.HandlerFunc(func(w http.ResponseWriter, req *http.Request) {
 			mu.Lock()
 			invoked++
@@ -232,6 +237,10 @@ func c07Retry(c *Ctx) {
 			if k > 12 {
 				w.WriteHeader(599)
 				return
+			}
+			if overrideMethod != "" {
+				// a method-override style handler: rewrites the request it was handed (its own copy) in place
+				req.Method = overrideMethod
 			}
 			if recMode {
 				// an upgrade-style handler: tries to take over the connection and, when that is refused, answers normally
